@@ -618,7 +618,13 @@ func (p NewChannelReqPayload) MarshalBinary() ([]byte, error) {
 	// See Frequency Encoding in MAC Commands
 	// https://lora-developers.semtech.com/documentation/tech-papers-and-guides/physical-layer-proposal-2.4ghz/
 	if freq >= 2400000000 {
+		if freq%200 != 0 {
+			return b, errors.New("lorawan: Freq must be a multiple of 200 for 2.4GHz frequencies")
+		}
 		freq = freq / 2
+	} else if freq/100 >= 12000000 {
+		// these values are reserved for the 2.4GHz (200Hz stepping) encoding
+		return b, errors.New("lorawan: Freq must be below 1.2GHz or at least 2.4GHz")
 	}
 
 	if freq/100 >= 16777216 { // 2^24
